@@ -15,6 +15,7 @@ type Map struct {
 	pidDelta  uint16
 	lastEntry uint16
 	entries   []entry
+	started   bool
 }
 
 type entry struct {
@@ -28,6 +29,14 @@ type entry struct {
 func (m *Map) Map(seqno uint16, pid uint16) (bool, uint16, uint16) {
 	m.mu.Lock()
 	defer m.mu.Unlock()
+
+	if !m.started {
+		m.started = true
+		if m.entries == nil {
+			// this is the first packet, next is not meaningful yet
+			m.next = seqno
+		}
+	}
 
 	if m.delta == 0 && m.entries == nil {
 		if compare(m.next, seqno) <= 0 ||
